@@ -538,6 +538,9 @@ pub fn run(prop: &str) -> Report {
         rep.caps_hit.push(format!("wall cap {} s: work items up to #{} of {} fully covered (enumeration order, simplest first)", cap, c, items.len()));
     }
     concurrent_siblings(&mut rep, &root, prop, &hist);
+    if thorough || std::env::var("VERIF_HUGE_UTXO").is_ok() {
+        huge_utxo_world(&mut rep, &root, c08);
+    }
     let _ = std::fs::remove_dir_all(&root);
     rep
 }
@@ -718,4 +721,148 @@ fn run_and_judge(prop: &str, c08: bool, wk: &Worker, cn: &'static Coin, world: &
             acc.count("address-with-several-unspent-outputs", 1);
         }
     }
+}
+
+/// Scale (thorough tier; VERIF_HUGE_UTXO=1 forces it in the quick tier): more live address-bearing outputs than any table a
+/// callback could reasonably reserve up front (14.7 million; std's hash map reserved for 10 million entries holds 14 680 064),
+/// created by one transaction between two byte-identical coinbases (duplicate txid: the later replaces the earlier), a few of
+/// them spent again at indices around the CompactSize and power-of-two marks. The dump is judged row by row while it is read
+/// (a bitmap over the output indices; no row set of that size is built): every row of the big transaction has the height,
+/// value and address of its index, none is listed twice, none of the spent ones is listed, and all other rows are the model's.
+fn huge_utxo_world(rep: &mut Report, root: &std::path::Path, c08: bool) {
+    let n: usize = std::env::var("VERIF_HUGE_UTXO_N").ok().and_then(|v| v.parse().ok()).unwrap_or(14_700_000);
+    let btc = coin("bitcoin");
+    let scripts: Vec<Vec<u8>> = (0..40u8).map(|k| script::p2pkh(&script::h20(100 + k))).collect();
+    let addrs: Vec<String> = scripts.iter().map(|s| script::expect(btc, s).address.unwrap_or_default()).collect();
+    let dup = coinbase(1, 0xd0, vec![refmodel::chain::pay(90, 50 * COIN_VALUE), refmodel::chain::pay(91, 7)]);
+    let build = |n_out: usize| -> (ChainBuilder, [u8; 32], Vec<u32>) {
+        let mut cb = ChainBuilder::with_genesis(btc);
+        cb.push_raw(vec![dup.clone()]);
+        let big = Tx { version: 1, segwit: false, inputs: vec![TxIn::spend([0xee; 32], 0)], outputs: (0..n_out).map(|i| TxOut { value: 1 + (i % 1000) as u64, script: scripts[i % 40].clone() }).collect(), locktime: 0, wide: 0 };
+        let id = big.txid();
+        cb.push(vec![big]);
+        cb.push_raw(vec![dup.clone()]);
+        let spent: Vec<u32> = [0usize, 1, 252, 253, 65_535, 65_536, n_out / 2, n_out.saturating_sub(2), n_out - 1].into_iter().filter(|i| *i < n_out).map(|i| i as u32).collect::<std::collections::BTreeSet<u32>>().into_iter().collect();
+        cb.push(vec![Tx { version: 1, segwit: false, inputs: spent.iter().map(|i| TxIn::spend(id, *i)).collect(), outputs: vec![refmodel::chain::pay(92, 9)], locktime: 0, wide: 0 }]);
+        (cb, id, spent)
+    };
+    let (cb, big_id, spent) = build(n);
+    // the rows of everything but the big transaction: the model on the same chain with a one-output stand-in for it
+    let (small, small_id, _) = build(1);
+    let (u_small, _, _, _) = model::utxo_set(btc, &small.mblocks());
+    // (the spending transaction names the big one's id in its inputs, so its own id differs between the two chains)
+    let spender_id = cb.blocks[4].txs[1].txid();
+    let small_spender = small.blocks[4].txs[1].txid();
+    let others: Vec<model::Utxo> = u_small
+        .into_iter()
+        .filter(|x| x.txid != small_id)
+        .map(|mut x| {
+            if x.txid == small_spender {
+                x.txid = spender_id;
+            }
+            x
+        })
+        .collect();
+    let want_others = model::unspent_rows(&others);
+    let world = World::simple(btc, &cb.blocks, 0);
+    drop(cb);
+    let wk = Worker::new(root, 980);
+    if let Err(m) = wk.materialise(&world) {
+        return rep.machinery(m);
+    }
+    drop(world);
+    let desc = json!({"kind": "e1-described", "world": format!("genesis; coinbase X; one transaction with {} outputs over 40 addresses; coinbase X again (byte-identical); a transaction spending {} of the outputs", n, spent.len())});
+    let big_hex = refmodel::ser::hash_hex(&big_id);
+    let spent_set: std::collections::BTreeSet<u32> = spent.iter().copied().collect();
+    for cbn in if c08 { vec!["balances"] } else { vec!["unspentcsvdump"] } {
+        let mut spec = RunSpec::new("bitcoin", cbn);
+        spec.env.push(("VERIF_RUN_TIMEOUT".into(), "5400".into()));
+        let r = wk.run(&spec);
+        rep.states += 1;
+        rep.transitions += 1;
+        rep.count(&format!("huge-utxo-world:{}-outputs", n), 1);
+        rep.nontrivial.insert(h8(format!("huge{}{}", n, cbn).as_bytes()));
+        let mut bad: Vec<Mismatch> = expect_success(&r);
+        if bad.is_empty() && cbn == "unspentcsvdump" {
+            match r.files.get("unspent-0-4.csv") {
+                None => bad.push(("unspent-file-missing".into(), format!("{:?}", r.files.keys().collect::<Vec<_>>()))),
+                Some(bytes) => {
+                    let mut seen = vec![0u64; n / 64 + 1];
+                    let mut count = 0usize;
+                    let mut got_others: std::collections::BTreeSet<String> = Default::default();
+                    for (ln, line) in bytes.split(|b| *b == b'\n').enumerate() {
+                        if line.is_empty() {
+                            continue;
+                        }
+                        let line = String::from_utf8_lossy(line);
+                        if ln == 0 {
+                            if line != model::UNSPENT_HEADER {
+                                bad.push(("unspent-header".into(), line.to_string()));
+                                break;
+                            }
+                            continue;
+                        }
+                        let f: Vec<&str> = line.split(';').collect();
+                        if f.len() == 5 && f[0] == big_hex {
+                            let i: usize = f[1].parse().unwrap_or(usize::MAX);
+                            if i >= n {
+                                bad.push(("unspent-row-of-nonexistent-output".into(), line.to_string()));
+                                break;
+                            }
+                            if seen[i / 64] >> (i % 64) & 1 == 1 {
+                                bad.push(("unspent-row-listed-twice".into(), line.to_string()));
+                                break;
+                            }
+                            seen[i / 64] |= 1 << (i % 64);
+                            count += 1;
+                            if spent_set.contains(&(i as u32)) {
+                                bad.push(("unspent-spent-output-listed".into(), line.to_string()));
+                                break;
+                            }
+                            if f[2] != "2" || f[3].parse::<u64>().ok() != Some(1 + (i % 1000) as u64) || f[4] != addrs[i % 40] {
+                                bad.push(("unspent-row-wrong".into(), format!("{} (expected height 2 value {} address {})", line, 1 + i % 1000, addrs[i % 40])));
+                                break;
+                            }
+                        } else if !got_others.insert(line.to_string()) {
+                            bad.push(("unspent-row-listed-twice".into(), line.to_string()));
+                            break;
+                        }
+                    }
+                    if bad.is_empty() && count != n - spent.len() {
+                        bad.push(("unspent-rows-missing".into(), format!("{} rows of the big transaction, expected {}", count, n - spent.len())));
+                    }
+                    if bad.is_empty() && got_others != want_others {
+                        // an outpoint listed under two heights shows here: same txid and index, different height
+                        let sig = if got_others.iter().any(|l| got_others.iter().any(|m| m != l && m.split(';').take(2).eq(l.split(';').take(2)))) { "unspent-outpoint-listed-twice" } else { "unspent-rows-differ" };
+                        bad.push((sig.into(), format!("unexpected {:?} missing {:?}", got_others.difference(&want_others).take(3).collect::<Vec<_>>(), want_others.difference(&got_others).take(3).collect::<Vec<_>>())));
+                    }
+                }
+            }
+        }
+        if bad.is_empty() && cbn == "balances" {
+            let mut sums: BTreeMap<String, u128> = BTreeMap::new();
+            for i in 0..n {
+                if !spent_set.contains(&(i as u32)) {
+                    *sums.entry(addrs[i % 40].clone()).or_insert(0) += 1 + (i % 1000) as u128;
+                }
+            }
+            for x in &others {
+                *sums.entry(x.address.clone()).or_insert(0) += x.value as u128;
+            }
+            let want: std::collections::BTreeSet<String> = sums.into_iter().map(|(a, v)| format!("{};{}", a, v)).collect();
+            match r.file_str("balances-0-4.csv") {
+                None => bad.push(("balances-file-missing".into(), format!("{:?}", r.files.keys().collect::<Vec<_>>()))),
+                Some(t) => {
+                    let got: std::collections::BTreeSet<String> = t.lines().skip(1).map(|x| x.to_string()).collect();
+                    if got != want || t.lines().count() != want.len() + 1 {
+                        bad.push(("balances-rows-differ".into(), format!("unexpected {:?} missing {:?}", got.difference(&want).take(3).collect::<Vec<_>>(), want.difference(&got).take(3).collect::<Vec<_>>())));
+                    }
+                }
+            }
+        }
+        if let Some((sig, detail)) = bad.into_iter().next() {
+            rep.disagree(&format!("huge-utxo-world:{}", sig), format!("{} outputs, {}: {}", n, cbn, detail.chars().take(500).collect::<String>()), desc.clone());
+        }
+    }
+    wk.cleanup();
 }
